@@ -286,3 +286,8 @@ REGISTRY['C18'] = lambda cx, replay=None: clichecks.c18(cx)
 
 import regexcheck
 REGISTRY['C20'] = lambda cx, replay=None: regexcheck.c20(cx)
+
+
+import metachecks
+REGISTRY['C14'] = lambda cx, replay=None: metachecks.c14(cx)
+REGISTRY['C15'] = lambda cx, replay=None: metachecks.c15(cx)
